@@ -52,7 +52,7 @@ EXPLANATION = (
 )
 RULE_KINDS = {
     "parser/": "structural", "response/": "structural", "protocol/": "structural", "forward/": "structural",
-    "parser/interim-range": "finite-exhaustive", "parser/no-body-branch": "finite-exhaustive", "parser/no-body-codes": "finite-exhaustive",
+    "decoder/identity-orderings": "finite-exhaustive", "parser/interim-range": "finite-exhaustive", "parser/no-body-branch": "finite-exhaustive", "parser/no-body-codes": "finite-exhaustive",
     "client/evaluated-histories": "bounded",
     # included "C22:<rule>" obligations are classified by sa/props/c22.py (sa/report.rule_kind looks them up there)
 }
@@ -191,6 +191,13 @@ def check(ctx):
     mod = ctx.mod(P)
     with ctx.section("s-parser"):
         structural(ctx, "parser/*", "client/evaluated-histories (bounded)", _check_parser_structural, ctx, mod)
+    with ctx.section("s-interim-reset"):
+        structural(ctx, "parser/interim-resets-message-state", "client/evaluated-histories (bounded)", _check_interim_structural, ctx, mod)
+    with ctx.section("fe-identity-decoder"):
+        try:
+            _fe_identity_decoder(ctx)
+        except InterpError as e:
+            raise AnalysisError(f"C23/fe-identity-decoder: the decoder uses a construct the evaluator cannot interpret: {e}")
     with ctx.section("s-response"):
         structural(ctx, "response/*", "client/evaluated-histories (bounded)", _check_response_structural, ctx, mod)
     with ctx.section("protocol"):
@@ -484,6 +491,105 @@ class _AbstainingCtx(_NormCtx):
 
 def _check_parser_structural(ctx, mod):
     _check_parser(_AbstainingCtx(ctx), mod)
+
+
+def _self_attr_uses(fn):
+    """(loads, stores) of self.<attr> directly in fn (nested defs excluded); a ``del self.x`` counts as a store (the field is re-created by the next message)"""
+    loads, stores = set(), set()
+    for n in walk_local(fn):
+        if isinstance(n, ast.Attribute) and isinstance(n.value, ast.Name) and n.value.id == "self":
+            (loads if isinstance(n.ctx, ast.Load) else stores).add(n.attr)
+    return loads, stores
+
+
+def _mro_method(classes, name):
+    for c in classes:
+        m = methods(c)
+        if name in m:
+            return m[name]
+    return None
+
+
+def _closure_uses(classes, roots, seen=None):
+    """(loads, stores) over the self.<m>() call closure of the given function nodes (methods resolved along ``classes``, first wins; <Base>.<m>(self) calls too)"""
+    seen = set() if seen is None else seen
+    loads, stores = set(), set()
+    todo = list(roots)
+    while todo:
+        fn = todo.pop()
+        if id(fn) in seen:
+            continue
+        seen.add(id(fn))
+        l, s_ = _self_attr_uses(fn)
+        loads |= l
+        stores |= s_
+        for c in walk_local(fn):
+            if isinstance(c, ast.Call) and isinstance(c.func, ast.Attribute):
+                tgt = None
+                if isinstance(c.func.value, ast.Name) and c.func.value.id == "self":
+                    tgt = _mro_method(classes, c.func.attr)
+                elif isinstance(c.func.value, ast.Name) and c.args and src(c.args[0]) == "self":
+                    base = [k for k in classes if k.name == c.func.value.id]
+                    tgt = _mro_method(base, c.func.attr) if base else None
+                if tgt is not None:
+                    todo.append(tgt)
+    return loads, stores
+
+
+def _s_interim_reset(ctx, mod):
+    """STRUCTURAL: after an interim (1xx) response is swallowed, every per-message field that the framing decision of the NEXT response reads has been re-initialised.
+    per-message fields = what the parser's connectionMade closure initialises (derived); read set = self-attributes read by the non-interim part of allHeadersReceived
+    and its call closure; reset set = self-attributes stored / deleted on the interim branch, through its call closure"""
+    classes = [ctx.cls(P, "HTTPClientParser"), ctx._ctx.cls(P, "HTTPParser")] if isinstance(ctx, _NormCtx) else [ctx.cls(P, "HTTPClientParser"), ctx.cls(P, "HTTPParser")]
+    q = "twisted.web._newclient.HTTPClientParser.allHeadersReceived"
+    cm = _mro_method(classes, "connectionMade")
+    if cm is None:
+        raise Abstain("no connectionMade in the parser classes")
+    _, per_message = _closure_uses(classes, [cm])
+    if not per_message:
+        raise Abstain("connectionMade initialises nothing")
+    f = ctx.func(P, "HTTPClientParser.allHeadersReceived")
+    g = ctx.cfg(f)
+    interim, final = set(), set()
+    for v, bucket in ((150, interim), (200, final), (404, final), (204, final)):
+        bucket |= g.reach([g.entry], edge_ok=resolver(g, {"self.response.code": v}))
+    only_interim = interim - final
+    only_final = final - interim
+    if not only_interim or not only_final:
+        raise Abstain("the interim branch of allHeadersReceived was not separated by its status-code guard")
+
+    def uses(nodes):
+        loads, stores, calls = set(), set(), []
+        for i in nodes:
+            a = g.node(i).ast
+            if a is None or g.node(i).kind not in ("stmt", "test", "for", "with"):
+                continue
+            for n in ast.walk(a):
+                if isinstance(n, ast.Attribute) and isinstance(n.value, ast.Name) and n.value.id == "self":
+                    (loads if isinstance(n.ctx, ast.Load) else stores).add(n.attr)
+                if isinstance(n, ast.Call) and isinstance(n.func, ast.Attribute) and isinstance(n.func.value, ast.Name) and n.func.value.id == "self":
+                    t = _mro_method(classes, n.func.attr)
+                    if t is not None:
+                        calls.append(t)
+        l2, s2 = _closure_uses(classes, calls)
+        return loads | l2, stores | s2
+    read, _ = uses(only_final)
+    # the header lines of the next response are routed by these too (lineReceived / headerReceived closure): they fill the fields the decision reads
+    lr = [m_ for m_ in (_mro_method(classes, "lineReceived"), _mro_method(classes, "headerReceived"), _mro_method(classes, "statusReceived")) if m_ is not None]
+    read |= _closure_uses(classes, lr)[0]
+    _, reset = uses(only_interim)
+    needed = sorted(per_message & read)
+    if not needed:
+        raise Abstain("the framing decision reads none of the per-message fields")
+    for a in needed:
+        ctx.check(a in reset, "parser/interim-resets-message-state", q + f" | self.{a} after an interim response",
+                  f"self.{a} is per-message state (initialised by connectionMade) and is read when the next response is parsed / framed, but the interim (1xx) branch does not "
+                  f"re-initialise it (it resets {sorted(reset & per_message)}): what a 1xx response left there - e.g. its Content-Length / Transfer-Encoding headers - is taken for "
+                  "the final response's")
+
+
+def _check_interim_structural(ctx, mod):
+    _s_interim_reset(_AbstainingCtx(ctx), mod)
 
 
 def _check_response_structural(ctx, mod):
@@ -858,6 +964,13 @@ _RESPONSES = [
     ("head-100-then-200", b"HEAD", b"HTTP/1.1 100 Continue\r\n\r\nHTTP/1.1 200 OK\r\nContent-Length: 5\r\nX-Final: 1\r\n\r\n", b"", "none"),
     ("zero-length", b"GET", b"HTTP/1.1 200 OK\r\nContent-Length: 0\r\n\r\n", b"", "none"),
     ("lf-only-lines", b"GET", b"HTTP/1.1 200 OK\nContent-Length: 2\n\nok", b"ok", "length"),
+    # the segment that completes the body also carries bytes that follow it
+    ("length-then-trailing-bytes", b"GET", b"HTTP/1.1 200 OK\r\nContent-Length: 11\r\n\r\nhello worldHTTP/1.1 200 OK\r\n", b"hello world", "length"),
+    ("chunked-then-trailing-bytes", b"GET", b"HTTP/1.1 200 OK\r\nTransfer-Encoding: chunked\r\n\r\n2\r\nhi\r\n0\r\n\r\nXYZ", b"hi", "chunked"),
+    # interim responses that carry framing / connection-control headers of their own: they must not leak into the final response
+    ("interim-with-content-length", b"GET", b"HTTP/1.1 100 Continue\r\nContent-Length: 0\r\n\r\nHTTP/1.1 200 OK\r\nContent-Length: 2\r\n\r\nhi", b"hi", "length"),
+    ("interim-with-transfer-encoding", b"GET", b"HTTP/1.1 103 Early Hints\r\nTransfer-Encoding: chunked\r\nConnection: close\r\n\r\nHTTP/1.1 200 OK\r\nContent-Length: 2\r\n\r\nhi", b"hi", "length"),
+    ("interim-with-length-then-close-delimited", b"GET", b"HTTP/1.1 102 Processing\r\nContent-Length: 3\r\n\r\nHTTP/1.1 200 OK\r\nX-A: b\r\n\r\nhello", b"hello", "close"),
 ]
 
 
@@ -941,8 +1054,9 @@ def _judge(name, method, wire, body, ending, cut_desc, obs, received):
                 why.append(f"the request Deferred fired with a response of status {getattr(res, 'code', None)} instead of the final {status.decode()}")
             got_body = b"".join(obs["cons"].data)
             have = wire[head_end:received]
+            msg_end = wire.index(b"0\r\n\r\n", head_end) + 5 if ending == "chunked" else len(wire)      # bytes after the last-chunk are not part of the message
             if ending == "chunked":
-                want_body = body if received >= len(wire) else None      # partial chunked bodies: only a prefix check
+                want_body = body if received >= msg_end else None      # partial chunked bodies: only a prefix check
                 if want_body is None and not body.startswith(got_body):
                     why.append(f"the consumer received {got_body!r}, which is not a prefix of the body {body!r}")
             elif ending == "none":
@@ -956,7 +1070,7 @@ def _judge(name, method, wire, body, ending, cut_desc, obs, received):
                 why.append(f"the body consumer's connectionLost was called {len(lost)} times")
             else:
                 reason = lost[0].value.name if isinstance(lost[0], MFailure) else repr(lost[0])
-                complete = ending == "none" or (ending == "length" and received - head_end >= len(body)) or (ending == "chunked" and received >= len(wire))
+                complete = ending == "none" or (ending == "length" and received - head_end >= len(body)) or (ending == "chunked" and received >= msg_end)
                 if ending == "close":
                     want_reason = {"PotentialDataLoss"}
                 elif complete:
@@ -969,6 +1083,101 @@ def _judge(name, method, wire, body, ending, cut_desc, obs, received):
         if not isinstance(res, MFailure):
             why.append(f"the connection was lost before the headers were complete but the request Deferred has {res!r} instead of a failure")
     return why
+
+
+def _fe_identity_decoder(ctx):
+    """FINITE-EXHAUSTIVE over the orderings of len(segment) and the remaining length (<, =, >, incl. 0 and unknown), one and two segments, noMoreData() called re-entrantly from
+    the finish callback and again afterwards: the data callback gets exactly the body bytes, the finish callback the rest, once; a decoder whose body is complete never reports
+    loss; an incomplete one reports _DataLoss, an unbounded one PotentialDataLoss.  Domain argument: the decoder combines len(data) and contentLength only by comparison and
+    subtraction (checked on the code), so lengths 0..3 against segments 0..5 realise every ordering"""
+    from sa.props._lib_f import World
+    ctx.func(H, "_IdentityTransferDecoder.dataReceived")
+    ctx.func(H, "_IdentityTransferDecoder.noMoreData")
+    q = "twisted.web.http._IdentityTransferDecoder"
+    hw = World(ctx.mod(H), externals={"PotentialDataLoss": lambda *a: MExc("PotentialDataLoss", a), "_DataLoss": lambda *a: MExc("_DataLoss", a)})
+    payload = b"abcdefghij"
+    bad, n = [], 0
+
+    def run(length, segs, reenter):
+        got, rest, events = [], [], []
+        holder = []
+
+        def fin(r):
+            rest.append(r)
+            events.append("finish")
+            if reenter:
+                try:
+                    holder[0].noMoreData()
+                    events.append("nomore-inside:ok")
+                except ModelRaised as e:
+                    events.append("nomore-inside:" + e.name)
+        dec = hw.new("_IdentityTransferDecoder", length, lambda d: got.append(d), fin)
+        holder.append(dec)
+        pos = 0
+        for k in segs:
+            try:
+                dec.dataReceived(payload[pos:pos + k])
+                events.append("data:ok")
+            except ModelRaised as e:
+                events.append("data:" + e.name)
+            pos += k
+        try:
+            dec.noMoreData()
+            events.append("nomore:ok")
+        except ModelRaised as e:
+            events.append("nomore:" + e.name)
+        return b"".join(got), rest, events, pos
+    for length in (None, 0, 1, 2, 3):
+        for segs in [(a,) for a in range(0, 6)] + [(a, b_) for a in range(0, 4) for b_ in range(0, 4)]:
+            for reenter in ((False,) if length is None else (False, True)):
+                n += 1
+                body, rest, events, fed = run(length, segs, reenter)
+                why = []
+                if length is None:
+                    if body != payload[:fed]:
+                        why.append(f"delivers {body!r} of {payload[:fed]!r}")
+                    if events[-1] != "nomore:PotentialDataLoss":
+                        why.append(f"noMoreData ends with {events[-1]} instead of PotentialDataLoss")
+                else:
+                    # segments after completion are refused (RuntimeError) - only the bytes up to the completing segment count
+                    acc, done_at = 0, None
+                    for i, k in enumerate(segs):
+                        acc += k
+                        if acc >= length:
+                            done_at = i
+                            break
+                    if body != payload[:min(fed if done_at is None else acc, length)]:
+                        why.append(f"delivers {body!r} instead of {payload[:min(acc, length)]!r}")
+                    if done_at is not None:
+                        if rest != [payload[length:acc]]:
+                            why.append(f"finish callback calls {rest!r} instead of once with {payload[length:acc]!r}")
+                        losses = [e for e in events if e.startswith("nomore") and not e.endswith(":ok")]
+                        if losses:
+                            why.append(f"the body is complete but noMoreData reports {losses} (the consumer is told ResponseFailed for a complete body)")
+                    else:
+                        if rest:
+                            why.append(f"finish callback called ({rest!r}) before the body was complete")
+                        if events[-1] != "nomore:_DataLoss":
+                            why.append(f"{length - acc} bytes missing but noMoreData ends with {events[-1]} instead of _DataLoss")
+                if why:
+                    bad.append((length, segs, reenter, why))
+    # domain argument on the code
+    dom = []
+    for fn in ("dataReceived", "noMoreData"):
+        f = ctx.func(H, "_IdentityTransferDecoder." + fn)
+        for x in ast.walk(f):
+            if isinstance(x, ast.BinOp) and not isinstance(x.op, (ast.Sub, ast.Add)):
+                dom.append(f"operator {type(x.op).__name__}")
+            if isinstance(x, ast.Constant) and isinstance(x.value, int) and not isinstance(x.value, bool) and abs(x.value) > 1:
+                dom.append(f"constant {x.value}")
+    if dom:
+        ctx.note(f"decoder/identity-orderings: domain argument not verified ({dom[:2]}); the verdict is about the enumerated cases only")
+    msg = ""
+    if bad:
+        length, segs, reenter, why = bad[0]
+        msg = (f"Content-Length {length}, segments of {list(segs)} bytes" + (", noMoreData() called from the finish callback" if reenter else "") + ": " + "; ".join(why[:2]) +
+               f"; {len(bad)} of {n} cases wrong")
+    ctx.check(not bad, "decoder/identity-orderings", q + " | <remaining length x segment lengths x re-entrant noMoreData>", msg, detail=f"{n} cases")
 
 
 def _client_evaluated(ctx):
@@ -985,6 +1194,10 @@ def _client_evaluated(ctx):
         if name in ("204", "304", "zero-length", "lf-only-lines"):
             truncations = truncations[1:2]
             plans = plans[:2]
+        if name.startswith("interim-with") or name.endswith("trailing-bytes"):
+            # the basic responses above already cover every cut position; these add one dimension (interim headers / trailing bytes): whole, two splits, one loss
+            plans = plans[:1] + [((head_end, len(wire) - 2), len(wire), "split after the headers and two bytes before the end")]
+            truncations = truncations[-1:]
         for cutoff, label in truncations:
             plans.append(((cutoff // 2,), cutoff, f"connection lost {label} (after {cutoff} bytes)"))
         seen = set()
